@@ -90,7 +90,9 @@ func (p *pipeEnd) Write(b []byte) (int, error) {
 	h.mu.Lock()
 	defer h.mu.Unlock()
 	if h.closed {
-		return 0, io.ErrClosedPipe
+		// like TCP: a write after the peer has closed is accepted by the local stack (the reset, if any,
+		// only shows on a later operation); the bytes go nowhere
+		return len(b), nil
 	}
 	h.buf = append(h.buf, b...)
 	h.cond.Broadcast()
